@@ -78,6 +78,7 @@ Returned(text) ==
     /\ ((On("C16") /\ "anyemoji" \in DOMAIN E /\ "ansi" \in DOMAIN cfg /\ E.kind \in {"single", "full"}) =>
             IF cfg.ansi
             THEN /\ Require(~E.anyemoji, "C16: an emoji is offered in ANSI mode")
+                 /\ Require(("rawoffered" \in DOMAIN E) => ~E.rawoffered, "C16: the raw typed (English) text is offered in ANSI mode")
                  /\ Require(~E.prebn /\ E.prebijoy, "C16: a pre-edit text in ANSI mode is not the pure Bijoy encoding of its candidate")
             ELSE Require(E.preeq, "C16: ANSI off, but a pre-edit text differs from its candidate"))
 
